@@ -28,6 +28,7 @@ type tmSpec struct {
 }
 
 func runC30(c *core.Ctx) {
+	checkIcs23RunVerifiesWhatWasAsked(c, "C30.ics23-existence")
 	accessorPairs(c, "C30.accessor-keys", 2, "native/service/header_sync/cosmos", "native/service/header_sync/okex")
 	specs := []tmSpec{
 		{"native/service/header_sync/cosmos", "CosmosHandler"},
